@@ -1,15 +1,933 @@
 package main
 
-import "errors"
+// asmsym: symbolic executor for the Plan 9 amd64 assembly of
+// internal/lz4block/decode_amd64.s (parsed from /repo on every run).
 
-type AsmFunc struct{}
+import (
+	"fmt"
+	"os"
+	"regexp"
+	"strconv"
+	"strings"
+)
 
-func (a *AsmFunc) NumInstrs() int { return 0 }
+type asmOpKind int
 
-func parseAsmFile(path, fn string, consts map[string]int64) (*AsmFunc, error) {
-	return nil, errors.New("asmsym not built yet")
+const (
+	aReg asmOpKind = iota
+	aXReg
+	aImm
+	aMem   // disp(base)(index*scale)
+	aFP    // name+off(FP)
+	aSP    // off(SP)
+	aLabel // jump target
+	aSym   // runtime·memmove(SB)
+)
+
+type asmOperand struct {
+	kind  asmOpKind
+	reg   string
+	imm   int64
+	base  string
+	index string
+	scale int64
+	disp  int64
+	name  string
 }
 
+type asmInstr struct {
+	op   string
+	args []asmOperand
+	line int
+	text string
+}
+
+type AsmFunc struct {
+	name   string
+	instrs []asmInstr
+	labels map[string]int
+	frame  int
+	file   string
+}
+
+func (a *AsmFunc) NumInstrs() int {
+	if a == nil {
+		return 0
+	}
+	return len(a.instrs)
+}
+
+var gprNames = map[string]bool{"AX": true, "BX": true, "CX": true, "DX": true, "SI": true, "DI": true, "BP": true,
+	"R8": true, "R9": true, "R10": true, "R11": true, "R12": true, "R13": true, "R14": true, "R15": true}
+
+var xregRe = regexp.MustCompile(`^X([0-9]|1[0-5])$`)
+var memRe = regexp.MustCompile(`^(-?[0-9a-fA-FxX]*|const_[A-Za-z0-9_]+)?\(([A-Z0-9]+)\)(?:\(([A-Z0-9]+)\*([1248])\))?$`)
+var fpRe = regexp.MustCompile(`^([A-Za-z0-9_]+)\+(-?[0-9]+)\(FP\)$`)
+
+func parseAsmFile(path, fn string, consts map[string]int64) (*AsmFunc, error) {
+	b, err := os.ReadFile(path)
+	if err != nil {
+		return nil, err
+	}
+	lines := strings.Split(string(b), "\n")
+	af := &AsmFunc{name: fn, labels: map[string]int{}, file: path}
+	in := false
+	for ln, raw := range lines {
+		line := raw
+		if i := strings.Index(line, "//"); i >= 0 {
+			line = line[:i]
+		}
+		line = strings.TrimSpace(line)
+		if line == "" || strings.HasPrefix(line, "#") {
+			continue
+		}
+		if strings.HasPrefix(line, "TEXT") {
+			if in {
+				break
+			}
+			if strings.Contains(line, "·"+fn+"(SB)") {
+				in = true
+				// frame size: $48-80
+				if i := strings.LastIndex(line, "$"); i >= 0 {
+					fs := line[i+1:]
+					if j := strings.Index(fs, "-"); j >= 0 {
+						fs = fs[:j]
+					}
+					af.frame, _ = strconv.Atoi(strings.TrimSpace(fs))
+				}
+			}
+			continue
+		}
+		if !in {
+			continue
+		}
+		if strings.HasSuffix(line, ":") {
+			af.labels[strings.TrimSuffix(line, ":")] = len(af.instrs)
+			continue
+		}
+		// mnemonic and operands
+		fields := strings.SplitN(line, " ", 2)
+		op := strings.TrimSpace(fields[0])
+		if i := strings.IndexAny(op, "\t"); i >= 0 {
+			rest := op[i+1:]
+			op = op[:i]
+			if len(fields) > 1 {
+				fields[1] = rest + " " + fields[1]
+			} else {
+				fields = append(fields, rest)
+			}
+		}
+		ins := asmInstr{op: op, line: ln + 1, text: line}
+		if len(fields) > 1 {
+			for _, a := range splitOperands(fields[1]) {
+				o, err := parseOperand(strings.TrimSpace(a), consts)
+				if err != nil {
+					return nil, fmt.Errorf("%s:%d: %v (in %q)", path, ln+1, err, line)
+				}
+				ins.args = append(ins.args, o)
+			}
+		}
+		af.instrs = append(af.instrs, ins)
+	}
+	if !in {
+		return nil, fmt.Errorf("TEXT ·%s not found in %s", fn, path)
+	}
+	return af, nil
+}
+
+func splitOperands(s string) []string {
+	var out []string
+	depth := 0
+	cur := strings.Builder{}
+	for _, c := range s {
+		switch c {
+		case '(':
+			depth++
+		case ')':
+			depth--
+		case ',':
+			if depth == 0 {
+				out = append(out, cur.String())
+				cur.Reset()
+				continue
+			}
+		}
+		cur.WriteRune(c)
+	}
+	if strings.TrimSpace(cur.String()) != "" {
+		out = append(out, cur.String())
+	}
+	return out
+}
+
+func parseNum(s string, consts map[string]int64) (int64, error) {
+	if s == "" {
+		return 0, nil
+	}
+	if v, ok := consts[s]; ok {
+		return v, nil
+	}
+	neg := false
+	if strings.HasPrefix(s, "-") {
+		neg = true
+		s = s[1:]
+	}
+	v, err := strconv.ParseInt(s, 0, 64)
+	if err != nil {
+		u, err2 := strconv.ParseUint(s, 0, 64)
+		if err2 != nil {
+			return 0, fmt.Errorf("bad number %q", s)
+		}
+		v = int64(u)
+	}
+	if neg {
+		v = -v
+	}
+	return v, nil
+}
+
+func parseOperand(s string, consts map[string]int64) (asmOperand, error) {
+	if gprNames[s] {
+		return asmOperand{kind: aReg, reg: s}, nil
+	}
+	if xregRe.MatchString(s) {
+		return asmOperand{kind: aXReg, reg: s}, nil
+	}
+	if strings.HasPrefix(s, "$") {
+		v, err := parseNum(s[1:], consts)
+		if err != nil {
+			return asmOperand{}, err
+		}
+		return asmOperand{kind: aImm, imm: v}, nil
+	}
+	if m := fpRe.FindStringSubmatch(s); m != nil {
+		off, _ := strconv.ParseInt(m[2], 10, 64)
+		return asmOperand{kind: aFP, name: m[1], disp: off}, nil
+	}
+	if strings.HasSuffix(s, "(SB)") {
+		return asmOperand{kind: aSym, name: strings.TrimSuffix(s, "(SB)")}, nil
+	}
+	if m := memRe.FindStringSubmatch(s); m != nil {
+		disp, err := parseNum(m[1], consts)
+		if err != nil {
+			return asmOperand{}, err
+		}
+		if m[2] == "SP" && m[3] == "" {
+			return asmOperand{kind: aSP, disp: disp}, nil
+		}
+		if !gprNames[m[2]] {
+			return asmOperand{}, fmt.Errorf("bad base register %q", m[2])
+		}
+		o := asmOperand{kind: aMem, base: m[2], disp: disp}
+		if m[3] != "" {
+			if !gprNames[m[3]] {
+				return asmOperand{}, fmt.Errorf("bad index register %q", m[3])
+			}
+			o.index = m[3]
+			o.scale, _ = strconv.ParseInt(m[4], 10, 64)
+		}
+		return o, nil
+	}
+	if regexp.MustCompile(`^[A-Za-z_][A-Za-z0-9_]*$`).MatchString(s) {
+		return asmOperand{kind: aLabel, name: s}, nil
+	}
+	return asmOperand{}, fmt.Errorf("cannot parse operand %q", s)
+}
+
+// ---------- execution ----------
+
+type asmRegion struct {
+	name string
+	obj  *Object
+	off  int // cell offset of element 0
+	n    int
+	base uint64
+	nil_ bool
+}
+
+type asmFlags struct {
+	kind string // "sub", "add", "logic", "incdec", "" (undefined)
+	a, b *Term  // operands (sub: a - b ; add: a + b)
+	res  *Term
+	cf   *Term // carry preserved by inc/dec
+}
+
+type asmState struct {
+	ex      *Exec
+	fn      *AsmFunc
+	regs    map[string]*Term
+	xregs   map[string][]*Term
+	frame   []*Term // bytes of the local frame; nil = uninitialised
+	fl      asmFlags
+	regions []*asmRegion
+	args    map[int64]*Term // FP slots
+	ret     *Term
+	visits  map[int]int
+}
+
+const (
+	asmDstBase  = 0xc000100000
+	asmSrcBase  = 0xc000200000
+	asmDictBase = 0xc000300000
+)
+
 func (ex *Exec) asmDecodeBlock(dst, src, dict Slice) Value {
-	panic(unsupported("asmsym not built yet"))
+	af := ex.w.asm
+	if af == nil {
+		panic(unsupported("cannot encode assembly: " + fmt.Sprint(ex.w.asmErr)))
+	}
+	ts := ex.ts
+	st := &asmState{ex: ex, fn: af, regs: map[string]*Term{}, xregs: map[string][]*Term{}, frame: make([]*Term, af.frame), args: map[int64]*Term{}, visits: map[int]int{}}
+	mk := func(name string, s Slice, base uint64, slot int64) {
+		r := &asmRegion{name: name, base: base}
+		if s.obj == nil {
+			r.nil_ = true
+			r.base = 0
+		} else {
+			r.obj = s.obj
+			r.off = ex.concInt(s.off)
+			r.n = ex.concInt(s.len)
+			if r.obj.released {
+				ex.event("use-after-put", "assembly decoder given a buffer released to the pool")
+			}
+		}
+		st.regions = append(st.regions, r)
+		st.args[slot] = ts.Const(64, r.base)
+		st.args[slot+8] = ts.Const(64, uint64(r.n))
+		capv := uint64(r.n)
+		if s.obj != nil {
+			capv = uint64(ex.concInt(s.cap))
+		}
+		st.args[slot+16] = ts.Const(64, capv)
+	}
+	mk("dst", dst, asmDstBase, 0)
+	mk("src", src, asmSrcBase, 24)
+	mk("dict", dict, asmDictBase, 48)
+	st.run()
+	if st.ret == nil {
+		panic(unsupported("assembly returned without setting the result"))
+	}
+	return st.ret
+}
+
+func (st *asmState) cannot(ins *asmInstr, why string) {
+	panic(unsupported(fmt.Sprintf("cannot encode assembly (%s:%d %q): %s", "decode_amd64.s", ins.line, ins.text, why)))
+}
+
+func (st *asmState) reg(ins *asmInstr, name string) *Term {
+	v, ok := st.regs[name]
+	if !ok || v == nil {
+		st.ex.asmViolation("asm-uninitialised-or-clobbered-register", fmt.Sprintf("line %d %q reads %s which is undefined here (e.g. clobbered by CALL)", ins.line, ins.text, name), nil)
+	}
+	if len(st.ex.ts.subst) > 0 && v.op != OpConst {
+		if c, ok := st.ex.ts.subst[v]; ok {
+			st.regs[name] = c
+			return c
+		}
+	}
+	return v
+}
+
+func (st *asmState) addr(ins *asmInstr, o asmOperand) *Term {
+	ts := st.ex.ts
+	a := st.reg(ins, o.base)
+	if o.index != "" {
+		idx := st.reg(ins, o.index)
+		if o.scale != 1 {
+			idx = ts.Mul(idx, ts.Const(64, uint64(o.scale)))
+		}
+		a = ts.Add(a, idx)
+	}
+	if o.disp != 0 {
+		a = ts.Add(a, ts.Const(64, uint64(o.disp)))
+	}
+	return a
+}
+
+// asmViolation reports a failed implicit obligation (with a model) and ends the path.
+func (ex *Exec) asmViolation(id, detail string, cond *Term) {
+	ex.path.Obligations++
+	var r Result
+	var tp *Tape
+	if cond == nil {
+		r, tp = ex.checkViolation()
+	} else {
+		r, tp = ex.checkViolation(cond)
+	}
+	if r == Sat && tp != nil {
+		tp.Kind = "counterexample"
+		tp.Expect.Fail = id
+		ex.path.Failures = append(ex.path.Failures, Failure{ID: id + ": " + detail, Tape: tp})
+	} else if r == Unknown {
+		ex.path.Inconclusive = append(ex.path.Inconclusive, "unknown while deciding "+id)
+	}
+	ex.abort("assert", id+": "+detail)
+}
+
+// locate resolves an access of w bytes at address a to (region, index). Proves the bounds
+// obligation first; a satisfiable escape is a C03 counterexample.
+func (st *asmState) locate(ins *asmInstr, a *Term, w int, store bool) (*asmRegion, int) {
+	ex := st.ex
+	ts := ex.ts
+	kind := "load"
+	if store {
+		kind = "store"
+	}
+	inReg := func(r *asmRegion) *Term {
+		if r.nil_ || r.n < w {
+			return ts.tFalse
+		}
+		lo := ts.Const(64, r.base)
+		hi := ts.Const(64, r.base+uint64(r.n-w))
+		return ts.BAnd(ts.Ule(lo, a), ts.Ule(a, hi))
+	}
+	if !a.IsConst() {
+		ok := ts.tFalse
+		for _, r := range st.regions {
+			if store && r.name != "dst" {
+				continue
+			}
+			ok = ts.BOr(ok, inReg(r))
+		}
+		ex.path.Asserts++
+		if !ok.IsTrue() {
+			ex.path.Obligations++
+			res, tp := ex.checkViolation(ts.BNot(ok))
+			switch res {
+			case Sat:
+				if tp != nil {
+					tp.Kind = "counterexample"
+					tp.Expect.Fail = "asm-" + kind + "-in-bounds"
+					ex.path.Failures = append(ex.path.Failures, Failure{ID: fmt.Sprintf("asm-%s-in-bounds: line %d %q: %d-byte %s can fall outside the slices", kind, ins.line, ins.text, w, kind), Tape: tp})
+				}
+				ex.abort("assert", "assembly "+kind+" out of bounds")
+			case Unknown:
+				ex.path.Inconclusive = append(ex.path.Inconclusive, "unknown on asm bounds obligation")
+			default:
+				ex.path.Discharged++
+			}
+			if !ex.feasible(ok) {
+				ex.abort("dead", "")
+			}
+			ex.assertPC(ok)
+		}
+		v := ex.concretize(a)
+		a = ts.Const(64, v)
+	}
+	av := a.val
+	for _, r := range st.regions {
+		if r.nil_ {
+			continue
+		}
+		if store && r.name != "dst" {
+			continue
+		}
+		if av >= r.base && av+uint64(w) <= r.base+uint64(r.n) {
+			return r, int(av - r.base)
+		}
+	}
+	ex.path.Asserts++
+	ex.asmViolation("asm-"+kind+"-in-bounds", fmt.Sprintf("line %d %q: %d-byte %s at %#x is outside the slices", ins.line, ins.text, w, kind, av), nil)
+	return nil, 0
+}
+
+func (st *asmState) loadMem(ins *asmInstr, o asmOperand, w int) []*Term {
+	ex := st.ex
+	switch o.kind {
+	case aMem:
+		r, i := st.locate(ins, st.addr(ins, o), w, false)
+		out := make([]*Term, w)
+		for k := 0; k < w; k++ {
+			out[k] = ex.readCell(r.obj, r.off+i+k).(*Term)
+		}
+		return out
+	case aSP:
+		out := make([]*Term, w)
+		for k := 0; k < w; k++ {
+			idx := int(o.disp) + k
+			if idx < 0 || idx >= len(st.frame) || st.frame[idx] == nil {
+				st.cannot(ins, "read of uninitialised or out-of-frame stack slot")
+			}
+			out[k] = st.frame[idx]
+		}
+		return out
+	case aFP:
+		v, ok := st.args[o.disp]
+		if !ok {
+			st.cannot(ins, "unknown FP slot")
+		}
+		return splitBytes(ex.ts, v, w)
+	}
+	st.cannot(ins, "unsupported memory operand")
+	return nil
+}
+
+func (st *asmState) storeMem(ins *asmInstr, o asmOperand, bytes []*Term) {
+	ex := st.ex
+	switch o.kind {
+	case aMem:
+		r, i := st.locate(ins, st.addr(ins, o), len(bytes), true)
+		for k, b := range bytes {
+			ex.writeCell(r.obj, r.off+i+k, b)
+		}
+	case aSP:
+		for k, b := range bytes {
+			idx := int(o.disp) + k
+			if idx < 0 || idx >= len(st.frame) {
+				ex.asmViolation("asm-store-in-bounds", fmt.Sprintf("line %d %q: store outside the %d-byte frame", ins.line, ins.text, len(st.frame)), nil)
+			}
+			st.frame[idx] = b
+		}
+	case aFP:
+		if o.name == "ret" {
+			st.ret = joinBytes(ex.ts, bytes)
+			return
+		}
+		st.cannot(ins, "store to argument slot")
+	default:
+		st.cannot(ins, "unsupported store operand")
+	}
+}
+
+func splitBytes(ts *TermStore, v *Term, w int) []*Term {
+	out := make([]*Term, w)
+	for k := 0; k < w; k++ {
+		out[k] = ts.Extract(v, uint8(8*k+7), uint8(8*k))
+	}
+	return out
+}
+
+func joinBytes(ts *TermStore, bs []*Term) *Term {
+	acc := bs[0]
+	for k := 1; k < len(bs); k++ {
+		acc = ts.Concat(bs[k], acc)
+	}
+	return acc
+}
+
+// rd reads operand as a w-byte value zero-extended to 64 bits.
+func (st *asmState) rd(ins *asmInstr, o asmOperand, w int) *Term {
+	ts := st.ex.ts
+	switch o.kind {
+	case aReg:
+		v := st.reg(ins, o.reg)
+		if w == 8 {
+			return v
+		}
+		return ts.ZExt(ts.Extract(v, uint8(8*w-1), 0), 64)
+	case aImm:
+		return ts.Const(64, uint64(o.imm)&mask(uint8(8*w)))
+	case aMem, aSP, aFP:
+		return ts.ZExt(joinBytes(ts, st.loadMem(ins, o, w)), 64)
+	}
+	st.cannot(ins, "unsupported source operand")
+	return nil
+}
+
+// wr writes the low w bytes of v to operand. zeroUpper: 32-bit writes clear the upper half.
+func (st *asmState) wr(ins *asmInstr, o asmOperand, v *Term, w int) {
+	ts := st.ex.ts
+	switch o.kind {
+	case aReg:
+		switch w {
+		case 8:
+			st.regs[o.reg] = v
+		case 4:
+			st.regs[o.reg] = ts.ZExt(ts.Extract(v, 31, 0), 64)
+		default:
+			old, ok := st.regs[o.reg]
+			if !ok || old == nil {
+				// partial write to an undefined register: upper bits stay undefined; model as fresh zero
+				// is unsound, so refuse unless fully defined.
+				old = ts.Const(64, 0)
+				st.regs[o.reg+"#partial"] = ts.tTrue
+			}
+			st.regs[o.reg] = ts.Concat(ts.Extract(old, 63, uint8(8*w)), ts.Extract(v, uint8(8*w-1), 0))
+		}
+	case aMem, aSP, aFP:
+		st.storeMem(ins, o, splitBytes(ts, v, w))
+	default:
+		st.cannot(ins, "unsupported destination operand")
+	}
+}
+
+func (st *asmState) setFlagsSub(a, b *Term, w int) {
+	ts := st.ex.ts
+	wa, wb := a, b
+	if w < 8 {
+		wa = ts.Extract(a, uint8(8*w-1), 0)
+		wb = ts.Extract(b, uint8(8*w-1), 0)
+	}
+	st.fl = asmFlags{kind: "sub", a: wa, b: wb, res: ts.Sub(wa, wb)}
+}
+
+func (st *asmState) setFlagsAdd(a, b *Term, w int) {
+	ts := st.ex.ts
+	wa, wb := a, b
+	if w < 8 {
+		wa = ts.Extract(a, uint8(8*w-1), 0)
+		wb = ts.Extract(b, uint8(8*w-1), 0)
+	}
+	st.fl = asmFlags{kind: "add", a: wa, b: wb, res: ts.Add(wa, wb)}
+}
+
+func (st *asmState) setFlagsLogic(res *Term, w int) {
+	ts := st.ex.ts
+	if w < 8 {
+		res = ts.Extract(res, uint8(8*w-1), 0)
+	}
+	st.fl = asmFlags{kind: "logic", res: res}
+}
+
+func (st *asmState) cond(ins *asmInstr, cc string) *Term {
+	ts := st.ex.ts
+	f := st.fl
+	if f.kind == "" {
+		st.cannot(ins, "conditional jump on undefined flags")
+	}
+	msb := func(t *Term) *Term { return ts.Eq(ts.Extract(t, t.w-1, t.w-1), ts.Const(1, 1)) }
+	var cf, zf, sf, of *Term
+	zf = ts.Eq(f.res, ts.Const(f.res.w, 0))
+	sf = msb(f.res)
+	switch f.kind {
+	case "sub":
+		cf = ts.Ult(f.a, f.b)
+		// OF: operands have different signs and result sign differs from a
+		of = ts.BAnd(ts.Ne(msb(f.a), msb(f.b)), ts.Ne(msb(f.res), msb(f.a)))
+	case "add":
+		cf = ts.Ult(f.res, f.a)
+		of = ts.BAnd(ts.Eq(msb(f.a), msb(f.b)), ts.Ne(msb(f.res), msb(f.a)))
+	case "logic":
+		cf, of = ts.tFalse, ts.tFalse
+	case "incdec":
+		cf = f.cf
+		of = nil
+	}
+	need := func(t *Term, what string) *Term {
+		if t == nil {
+			st.cannot(ins, "flag "+what+" is not defined here")
+		}
+		return t
+	}
+	lt := func() *Term {
+		if f.kind == "sub" {
+			return ts.Slt(f.a, f.b)
+		}
+		return ts.Ne(sf, need(of, "OF"))
+	}
+	switch cc {
+	case "JE", "JEQ", "JZ":
+		return zf
+	case "JNE", "JNZ":
+		return ts.BNot(zf)
+	case "JA", "JHI":
+		return ts.BAnd(ts.BNot(need(cf, "CF")), ts.BNot(zf))
+	case "JAE", "JCC", "JNC":
+		return ts.BNot(need(cf, "CF"))
+	case "JB", "JC", "JCS", "JLO":
+		return need(cf, "CF")
+	case "JBE", "JLS":
+		return ts.BOr(need(cf, "CF"), zf)
+	case "JS", "JMI":
+		return sf
+	case "JNS", "JPL":
+		return ts.BNot(sf)
+	case "JLT", "JL":
+		return lt()
+	case "JGE":
+		return ts.BNot(lt())
+	case "JLE":
+		return ts.BOr(zf, lt())
+	case "JGT", "JG":
+		return ts.BAnd(ts.BNot(zf), ts.BNot(lt()))
+	}
+	st.cannot(ins, "unsupported condition "+cc)
+	return nil
+}
+
+func opWidth(op string) (string, int) {
+	// returns (stem, width in bytes)
+	for _, sfx := range []struct {
+		s string
+		w int
+	}{{"Q", 8}, {"L", 4}, {"W", 2}, {"B", 1}} {
+		if strings.HasSuffix(op, sfx.s) {
+			return strings.TrimSuffix(op, sfx.s), sfx.w
+		}
+	}
+	return op, 8
+}
+
+func (st *asmState) memmove(ins *asmInstr) {
+	ex := st.ex
+	ts := ex.ts
+	get := func(off int) *Term {
+		bs := make([]*Term, 8)
+		for k := 0; k < 8; k++ {
+			if st.frame[off+k] == nil {
+				st.cannot(ins, "memmove argument slot not initialised")
+			}
+			bs[k] = st.frame[off+k]
+		}
+		return joinBytes(ts, bs)
+	}
+	to, from, n := get(0), get(8), get(16)
+	// n must be bounded by the regions: prove both ranges in bounds, for every n
+	inRange := func(a *Term, store bool) *Term {
+		ok := ts.tFalse
+		for _, r := range st.regions {
+			if r.nil_ || (store && r.name != "dst") {
+				continue
+			}
+			lo := ts.Const(64, r.base)
+			end := ts.Const(64, r.base+uint64(r.n))
+			// lo <= a && a <= end && n <= end - a
+			c := ts.BAnd(ts.BAnd(ts.Ule(lo, a), ts.Ule(a, end)), ts.Ule(n, ts.Sub(end, a)))
+			ok = ts.BOr(ok, c)
+		}
+		// a zero-length move touches nothing
+		return ts.BOr(ok, ts.Eq(n, ts.Const(64, 0)))
+	}
+	for _, chk := range []struct {
+		a     *Term
+		store bool
+		what  string
+	}{{from, false, "load"}, {to, true, "store"}} {
+		ok := inRange(chk.a, chk.store)
+		ex.path.Asserts++
+		if ok.IsTrue() {
+			continue
+		}
+		ex.path.Obligations++
+		res, tp := ex.checkViolation(ts.BNot(ok))
+		switch res {
+		case Sat:
+			if tp != nil {
+				tp.Kind = "counterexample"
+				tp.Expect.Fail = "asm-" + chk.what + "-in-bounds"
+				ex.path.Failures = append(ex.path.Failures, Failure{ID: fmt.Sprintf("asm-%s-in-bounds: line %d memmove %s range can fall outside the slices", chk.what, ins.line, chk.what), Tape: tp})
+			}
+			ex.abort("assert", "memmove out of bounds")
+		case Unknown:
+			ex.path.Inconclusive = append(ex.path.Inconclusive, "unknown on memmove bounds obligation")
+		default:
+			ex.path.Discharged++
+		}
+		if !ex.feasible(ok) {
+			ex.abort("dead", "")
+		}
+		ex.assertPC(ok)
+	}
+	nv := int(ex.concretize(n))
+	if nv > 0 {
+		tov := ex.concretize(to)
+		fromv := ex.concretize(from)
+		find := func(av uint64, store bool) (*asmRegion, int) {
+			for _, r := range st.regions {
+				if r.nil_ || (store && r.name != "dst") {
+					continue
+				}
+				if av >= r.base && av+uint64(nv) <= r.base+uint64(r.n) {
+					return r, int(av - r.base)
+				}
+			}
+			ex.asmViolation("asm-load-in-bounds", fmt.Sprintf("line %d memmove range [%#x,+%d) outside the slices", ins.line, av, nv), nil)
+			return nil, 0
+		}
+		sr, si := find(fromv, false)
+		dr, di := find(tov, true)
+		tmp := make([]Value, nv)
+		for k := 0; k < nv; k++ {
+			tmp[k] = ex.readCell(sr.obj, sr.off+si+k)
+		}
+		for k := 0; k < nv; k++ {
+			ex.writeCell(dr.obj, dr.off+di+k, tmp[k])
+		}
+	}
+	// ABI0: every register except SP is caller-saved; flags too
+	for r := range st.regs {
+		delete(st.regs, r)
+	}
+	for r := range st.xregs {
+		delete(st.xregs, r)
+	}
+	st.fl = asmFlags{}
+	// the argument area of the callee's frame may be overwritten by the callee
+	for k := 0; k < 24 && k < len(st.frame); k++ {
+		if k < 16 {
+			st.frame[k] = nil
+		}
+	}
+	// 16(SP) is re-read by the real code after one of the calls (copy_size); Go's memmove does not
+	// modify its stack arguments in practice, but ABI0 allows it: keep 16..23 as they were.
+}
+
+func (st *asmState) run() {
+	ex := st.ex
+	ts := ex.ts
+	pc := 0
+	fn := st.fn
+	for {
+		if pc >= len(fn.instrs) {
+			st.cannot(&fn.instrs[len(fn.instrs)-1], "fell off the end of the function")
+		}
+		ins := &fn.instrs[pc]
+		ex.stats.steps++
+		if ex.stats.steps > ex.maxSteps {
+			ex.abort("steps", "step budget exhausted in assembly")
+		}
+		next := pc + 1
+		op := ins.op
+		jump := func(o asmOperand) int {
+			if o.kind != aLabel {
+				st.cannot(ins, "jump target is not a label")
+			}
+			t, ok := fn.labels[o.name]
+			if !ok {
+				st.cannot(ins, "unknown label "+o.name)
+			}
+			st.visits[t]++
+			if st.visits[t] > int(ex.unwind) {
+				ex.event("unwind", fmt.Sprintf("assembly label %s visited more than %d times", o.name, ex.unwind))
+				ex.abort("unwind", "loop bound exceeded at assembly label "+o.name)
+			}
+			return t
+		}
+		switch {
+		case op == "RET":
+			return
+		case op == "JMP":
+			next = jump(ins.args[0])
+		case op == "CALL":
+			if len(ins.args) != 1 || ins.args[0].kind != aSym || !strings.Contains(ins.args[0].name, "memmove") {
+				st.cannot(ins, "only CALL runtime·memmove is modelled")
+			}
+			st.memmove(ins)
+		case strings.HasPrefix(op, "J"):
+			c := st.cond(ins, op)
+			if ex.decide(c, false) {
+				next = jump(ins.args[0])
+			}
+		case op == "MOVOU" || op == "MOVUPS":
+			src, dst := ins.args[0], ins.args[1]
+			var bs []*Term
+			if src.kind == aXReg {
+				bs = st.xregs[src.reg]
+				if bs == nil {
+					st.cannot(ins, "read of undefined XMM register")
+				}
+			} else {
+				bs = st.loadMem(ins, src, 16)
+			}
+			if dst.kind == aXReg {
+				st.xregs[dst.reg] = bs
+			} else {
+				st.storeMem(ins, dst, bs)
+			}
+		case op == "MOVBLZX" || op == "MOVBQZX":
+			st.wr(ins, ins.args[1], st.rd(ins, ins.args[0], 1), 8)
+		case op == "MOVWLZX" || op == "MOVWQZX":
+			st.wr(ins, ins.args[1], st.rd(ins, ins.args[0], 2), 8)
+		case op == "MOVLQZX":
+			st.wr(ins, ins.args[1], st.rd(ins, ins.args[0], 4), 8)
+		case op == "MOVQ" || op == "MOVL" || op == "MOVW" || op == "MOVB":
+			_, w := opWidth(op)
+			v := st.rd(ins, ins.args[0], w)
+			if ins.args[0].kind == aImm && w == 8 {
+				v = ts.Const(64, uint64(ins.args[0].imm))
+			}
+			st.wr(ins, ins.args[1], v, w)
+		case op == "LEAQ":
+			if ins.args[0].kind != aMem {
+				st.cannot(ins, "LEAQ source")
+			}
+			st.wr(ins, ins.args[1], st.addr(ins, ins.args[0]), 8)
+		case op == "ADDQ" || op == "ADDL":
+			_, w := opWidth(op)
+			a := st.rd(ins, ins.args[1], w)
+			b := st.rd(ins, ins.args[0], w)
+			st.setFlagsAdd(a, b, w)
+			st.wr(ins, ins.args[1], ts.Add(a, b), w)
+		case op == "SUBQ" || op == "SUBL":
+			_, w := opWidth(op)
+			a := st.rd(ins, ins.args[1], w)
+			b := st.rd(ins, ins.args[0], w)
+			st.setFlagsSub(a, b, w)
+			st.wr(ins, ins.args[1], ts.Sub(a, b), w)
+		case op == "CMPQ" || op == "CMPL" || op == "CMPW" || op == "CMPB":
+			_, w := opWidth(op)
+			a := st.rd(ins, ins.args[0], w)
+			b := st.rd(ins, ins.args[1], w)
+			st.setFlagsSub(a, b, w)
+		case op == "TESTQ" || op == "TESTL" || op == "TESTW" || op == "TESTB":
+			_, w := opWidth(op)
+			a := st.rd(ins, ins.args[0], w)
+			b := st.rd(ins, ins.args[1], w)
+			st.setFlagsLogic(ts.And(a, b), w)
+		case op == "ANDQ" || op == "ANDL" || op == "ORQ" || op == "ORL" || op == "XORQ" || op == "XORL":
+			stem, w := opWidth(op)
+			var r *Term
+			if stem == "XOR" && ins.args[0].kind == aReg && ins.args[1].kind == aReg && ins.args[0].reg == ins.args[1].reg {
+				r = ts.Const(64, 0) // zeroing idiom: defined even if the register was clobbered
+			} else {
+				a := st.rd(ins, ins.args[1], w)
+				b := st.rd(ins, ins.args[0], w)
+				switch stem {
+				case "AND":
+					r = ts.And(a, b)
+				case "OR":
+					r = ts.Or(a, b)
+				default:
+					r = ts.Xor(a, b)
+				}
+			}
+			st.setFlagsLogic(r, w)
+			st.wr(ins, ins.args[1], r, w)
+		case op == "INCQ" || op == "DECQ" || op == "INCL" || op == "DECL":
+			_, w := opWidth(op)
+			a := st.rd(ins, ins.args[0], w)
+			var r *Term
+			if strings.HasPrefix(op, "INC") {
+				r = ts.Add(a, ts.Const(64, 1))
+			} else {
+				r = ts.Sub(a, ts.Const(64, 1))
+			}
+			res := r
+			if w < 8 {
+				res = ts.Extract(r, uint8(8*w-1), 0)
+			}
+			st.fl = asmFlags{kind: "incdec", res: res}
+			st.wr(ins, ins.args[0], r, w)
+		case op == "NEGQ":
+			a := st.rd(ins, ins.args[0], 8)
+			st.setFlagsSub(ts.Const(64, 0), a, 8)
+			st.wr(ins, ins.args[0], ts.Neg(a), 8)
+		case op == "SHLQ" || op == "SHLL" || op == "SHRQ" || op == "SHRL" || op == "SARQ" || op == "SARL":
+			stem, w := opWidth(op)
+			if ins.args[0].kind != aImm {
+				st.cannot(ins, "shift by register")
+			}
+			k := uint64(ins.args[0].imm) & 63
+			if w == 4 {
+				k &= 31
+			}
+			a := st.rd(ins, ins.args[1], w)
+			var r *Term
+			bw := uint8(8 * w)
+			av := ts.Extract(a, bw-1, 0)
+			switch stem {
+			case "SHL":
+				r = ts.Bin(OpShl, av, ts.Const(bw, k))
+			case "SHR":
+				r = ts.Bin(OpLShr, av, ts.Const(bw, k))
+			default:
+				r = ts.Bin(OpAShr, av, ts.Const(bw, k))
+			}
+			st.fl = asmFlags{} // flags after shifts are not modelled
+			st.wr(ins, ins.args[1], ts.ZExt(r, 64), w)
+		default:
+			st.cannot(ins, "unsupported mnemonic "+op)
+		}
+		pc = next
+	}
 }
